@@ -2,7 +2,7 @@
    The closure is evaluated on the implementation on every run (trace, then serialize the same
    samples with the traced schema, then decode = interp inside Coq: the C01 oracle); the tracer
    model is compared with the crate in the C07 run. *)
-From Verif Require Import Tracer Coerce Coerce_proofs Accept Accept_proofs CoerceTable CoerceTable_proofs TracerTablesSpec.
+From Verif Require Import Tracer Coerce Coerce_proofs Accept Accept_proofs CoerceTable CoerceTable_proofs TracerTablesSpec Null_proofs.
 
 (* Full-strength statement (kept visible); Excluded = the three documented exclusions *)
 Definition C06_full (accepts : list SField -> list Value -> Prop) (Excluded : Opts -> list Value -> Prop) : Prop :=
@@ -47,6 +47,12 @@ Theorem C06_coerce_arms_match_model : forall cn ts lg prev nl curr,
   CoerceTable.first_match TracerTables.coerce_arms cn ts lg prev nl curr = Some (coerce_core cn ts lg prev nl curr).
 Proof. exact CoerceTable_proofs.coerce_table_is_model. Qed.
 
+(* nested shapes: a null among samples of any shape, at any place in the order, leaves the position nullable *)
+Theorem C06_null_makes_nullable_nested : forall o d l1 l2 t t',
+  trace_seq' o d (l1 ++ VNone :: l2) (Ok t) = Ok t' -> t_nullable t' = true.
+Proof. exact null_makes_nullable. Qed.
+
 Print Assumptions C06_leaf_accepts_partial.
 Print Assumptions C06_leaf_null_nullable_partial.
 Print Assumptions C06_coerce_arms_match_model.
+Print Assumptions C06_null_makes_nullable_nested.
